@@ -116,6 +116,58 @@ let judge _name ins outs =
             || classify env hin <> Forwarded in
           VOk nontrivial
 
+(* CON: a batch of messages sent concurrently through ONE stack.  Every
+   observed alternative of every message is judged as a sequential DIR case
+   (theorem C14_output_independent_of_other_messages: under any interleaving
+   of the modifiers' steps a message's result is stack_req / stack_res of that
+   message alone). *)
+let split_by (seps : string list) (toks : string list) : string list * (string * string list) list =
+  (* prefix before the first separator, then (separator, tokens) groups *)
+  let rec go pre groups cur = function
+    | [] -> (List.rev pre, List.rev (match cur with None -> groups | Some (s, l) -> (s, List.rev l) :: groups))
+    | t :: r when List.mem t seps ->
+        go pre (match cur with None -> groups | Some (s, l) -> (s, List.rev l) :: groups) (Some (t, [])) r
+    | t :: r ->
+        (match cur with
+         | None -> go (t :: pre) groups None r
+         | Some (s, l) -> go pre groups (Some (s, t :: l)) r) in
+  go [] [] None toks
+
+let judge_con name ins outs =
+  match outs with
+  | ["BADURL"] -> VOk false
+  | [] | ["BADCASE"] -> VDisagree "bad-case"
+  | t :: _ when starts "IOERR" t -> VDisagree ("environment:" ^ t)
+  | _ ->
+    let (envin, msgs) = split_by ["M"] (List.tl ins) in
+    let (table, groups) = split_by ["M"; "ALT"] outs in
+    (* attach ALT groups to the preceding M *)
+    let rec attach acc = function
+      | [] -> List.rev acc
+      | ("M", o) :: r -> attach ([o] :: acc) r
+      | (_, o) :: r -> (match acc with a :: acc' -> attach ((o :: a) :: acc') r | [] -> failwith "ALT before M") in
+    let obs = attach [] groups in
+    if List.length obs <> List.length msgs then VDisagree "batch-shape"
+    else begin
+      let res = ref (VOk (List.length msgs >= 8)) in
+      List.iteri (fun i ((_, m), alts) ->
+          List.iter (fun o ->
+              match !res with
+              | VOk _ ->
+                  (match judge name (("DIR" :: envin) @ m) (table @ o) with
+                   | VOk _ -> ()
+                   | VPropfail (c, d) -> res := VPropfail (c, Printf.sprintf "concurrent-batch_message=%d_alternatives=%d_%s" i (List.length alts) d)
+                   | VDisagree d -> res := VDisagree (Printf.sprintf "concurrent-batch_message=%d_%s" i d))
+              | _ -> ()) alts)
+        (List.combine msgs obs);
+      !res
+    end
+
+let judge name ins outs =
+  match ins with
+  | "CON" :: _ -> judge_con name ins outs
+  | _ -> judge name ins outs
+
 (* bin/vcheck resolves the inputs of only the first 2000 bad cases; when one
    defect makes thousands of cases fail, later ones would get an empty
    witness.  Report at most [cap] failures per clause (corpus cases come
